@@ -189,6 +189,36 @@ def inject(ast, reg, bounds, r, g):
             return None
         return g.call(ret, 1, 1)
 
+    if r.random() < 0.12:
+        # a ValueType call used as a test expression *inside* a LogicalType argument, under ! / && / || / parentheses
+        lfs = [n for n, f in reg.items() if LOGICAL in f["params"]]
+        tsites = [s_ for s_ in sites if s_[1] == "test"]
+        vc = some_call(VALUE)
+        if lfs and tsites and vc is not None:
+            path, _, _, depth = r.choice(tsites)
+            fname = r.choice(lfs)
+            fn = reg[fname]
+            bad = ["test", vc]
+            other = ["test", ["q", "@", [["child", [["name", r.choice("ab")]]]]]]
+            comp = r.choice([["not", bad], ["and", [bad, other]], ["and", [other, bad]], ["or", [other, bad]], ["paren", ["or", [bad, other]]],
+                             ["not", ["paren", ["and", [other, ["not", bad]]]]], ["and", [other, ["paren", bad]]]])
+            args, used = [], False
+            for pt in fn["params"]:
+                if pt == LOGICAL and not used:
+                    args.append(comp)
+                    used = True
+                else:
+                    args.append(g.argument(pt, 1, 1))
+            args = [a[1] if a and a[0] == "test" and a is not comp else a for a in args]
+            call = ["call", fname, args]
+            if fn["ret"] == VALUE:
+                # (get_at(path) is the operand of a test expression: replace the whole test by a comparison)
+                set_at(ast, path[:-1], ["cmp", "==", call, ["lit", 1]])
+            else:
+                set_at(ast, path, call)
+            return ast, "value-call-as-test-in-logical-argument", depth
+    looks_singular = [[["slice", -1, None, None]], [["slice", 0, 1, None]], [["slice", 2, 3, 1]], [["slice", None, 1, None]], [["slice", -1, None, 1]],
+                      [["index", 0], ["index", 0]], [["name", "a"], ["name", "a"]], [["slice", 1, 2, None]]]
     if kind == "int":
         v = r.choice([hi + 1, lo - 1, hi, lo, hi + 1, lo - 1, 0, 0, HUGE_SENTINEL, -HUGE_SENTINEL, 10**17 + 1, -(10**400)])
         set_at(ast, path, v)
@@ -210,6 +240,10 @@ def inject(ast, reg, bounds, r, g):
         if k == 1:
             set_at(ast, path, ["q", "@", [["child", [["wild"]]]]] if r.random() < 0.5 else
                    ["q", r.choice("@$"), [["desc", [["name", "a"]]]]])
+            return ast, "non-singular-compared", depth
+        if r.random() < 0.6:
+            # a query that can select at most one node but is not *syntactically* singular
+            set_at(ast, path, ["q", r.choice("@$"), ([["child", [["name", "a"]]]] if r.random() < 0.5 else []) + [["child", copy.deepcopy(r.choice(looks_singular))]]])
             return ast, "non-singular-compared", depth
         set_at(ast, path, ["q", "@", [["child", [["name", "a"], ["name", "b"]]]]])
         return ast, "non-singular-compared", depth
@@ -234,7 +268,9 @@ def inject(ast, reg, bounds, r, g):
         cands = []
         if pt == VALUE:
             cands = [["q", "@", [["child", [["wild"]]]]], ["cmp", "==", ["lit", 1], ["lit", 1]],
-                     some_call(LOGICAL), some_call(NODES), ["q", "$", [["desc", [["wild"]]]]]]
+                     some_call(LOGICAL), some_call(NODES), ["q", "$", [["desc", [["wild"]]]]],
+                     ["q", "@", [["child", [["name", "a"]]], ["child", copy.deepcopy(r.choice(looks_singular))]]],
+                     ["q", "@", [["child", copy.deepcopy(r.choice(looks_singular))]]]]
         elif pt == NODES:
             cands = [["lit", 1], ["lit", "a"], ["cmp", "==", ["q", "@", []], ["lit", 1]], some_call(VALUE),
                      some_call(LOGICAL), ["lit", None]]
